@@ -37,6 +37,12 @@ REFUSALS = {
     'add_eltorito:missing-boot-file': ('plain', 'add_eltorito', ['/NOPE.;1'], {}),
     'add_eltorito:bad-media': ('plain', 'add_eltorito', ['/FOO.;1'], dict(media_name='bogus')),
     'add_eltorito:bad-platform': ('plain', 'add_eltorito', ['/FOO.;1'], dict(platform_id=7)),
+    'add_eltorito:bootcat-missing-parent': ('plain', 'add_eltorito', ['/FOO.;1'], dict(bootcatfile='/NODIR/BOOT.CAT;1')),
+    'add_eltorito:bootcat-illegal-name': ('plain', 'add_eltorito', ['/FOO.;1'], dict(bootcatfile='/boot cat')),
+    'add_eltorito:bootcat-duplicate': ('plain', 'add_eltorito', ['/FOO.;1'], dict(bootcatfile='/FOO.;1')),
+    'add_eltorito:rr-bootcat-name-with-slash': ('rr', 'add_eltorito', ['/FOO.;1'], dict(rr_bootcatname='a/b')),
+    'add_eltorito:joliet-bootcat-missing-parent': ('joliet', 'add_eltorito', ['/FOO.;1'], dict(joliet_bootcatfile='/nodir/boot.cat')),
+    'add_eltorito:udf-bootcat-duplicate': ('udf', 'add_eltorito', ['/FOO.;1'], dict(udf_bootcatfile='/foo')),
     'add_eltorito:bad-media-with-table': ('plain', 'add_eltorito', ['/FOO.;1'], dict(media_name='bogus', boot_info_table=True)),
     'rm_eltorito:none': ('plain', 'rm_eltorito', [], {}),
     'add_isohybrid:no-eltorito': ('plain', 'add_isohybrid', [], {}),
@@ -57,6 +63,15 @@ REFUSALS = {
     'add_eltorito:load-segment-too-big': ('plain', 'add_eltorito', ['/FOO.;1'], dict(boot_load_seg=65536)),
     'add_symlink:empty-target': ('rr', 'add_symlink', [], dict(symlink_path='/SYM.;1', rr_symlink_name='sym', rr_path='')),
     'add_symlink:empty-udf-target': ('udf', 'add_symlink', [], dict(udf_symlink_path='/sym', udf_target='')),
+    # refused since K63-K66: they used to be accepted and to make the next write fail
+    'add_hard_link:old-is-a-directory': ('plain', 'add_hard_link', [], dict(iso_old_path='/DIR1', iso_new_path='/LNK.;1')),
+    'add_hard_link:old-is-a-joliet-directory': ('joliet', 'add_hard_link', [], dict(joliet_old_path='/dir1', joliet_new_path='/lnk')),
+    'add_hard_link:old-is-a-udf-directory': ('udf', 'add_hard_link', [], dict(udf_old_path='/dir1', udf_new_path='/lnk')),
+    'add_fp:negative-length': ('plain', 'add_fp', ['FILE', -1], dict(iso_path='/BAR.;1')),
+    'add_isohybrid:efi-without-efi-image': ('eltorito', 'add_isohybrid', [], dict(efi=True)),
+    'add_isohybrid:mac-without-efi-images': ('eltorito', 'add_isohybrid', [], dict(mac=True)),
+    'add_isohybrid:mac-with-one-efi-image': ('eltorito2', 'add_isohybrid', [], dict(mac=True)),
+    'add_symlink:rr-name-with-slash': ('rr', 'add_symlink', [], dict(symlink_path='/SYM.;1', rr_symlink_name='a/b', rr_path='foo')),
     'add_symlink:udf-target-component-too-long': ('udf', 'add_symlink', [], dict(udf_symlink_path='/sym', udf_target='d/' + 'x' * 255)),
     # a Joliet / UDF path that names the root directory itself (K60: used to add an entry without a name)
     'add_fp:joliet-path-names-the-root': ('joliet', 'add_fp', ['FILE', 4], dict(joliet_path='/.')),
@@ -96,6 +111,12 @@ KNOWN_NON_ATOMIC = {
     'add_eltorito:bad-media': 'add_eltorito with an unknown media name: boot record and catalog already attached; the next write fails',
     'add_eltorito:bad-media-with-table': 'add_eltorito(boot_info_table=True) with an unknown media name: boot info table, boot record and catalog already attached',
     'add_eltorito:bad-platform': 'add_eltorito with an invalid platform id: boot record and catalog already attached; the next write fails',
+    'add_eltorito:bootcat-missing-parent': 'add_eltorito with a boot catalog path in a missing directory: boot record and catalog already attached; the next write fails',
+    'add_eltorito:bootcat-illegal-name': 'add_eltorito with an illegal boot catalog name: boot record and catalog already attached; the next write fails',
+    'add_eltorito:bootcat-duplicate': 'add_eltorito with a boot catalog name that exists: boot record and catalog already attached; the next write fails',
+    'add_eltorito:rr-bootcat-name-with-slash': 'add_eltorito with a Rock Ridge catalog name holding a slash: boot record and catalog already attached; the next write fails',
+    'add_eltorito:joliet-bootcat-missing-parent': 'add_eltorito with a Joliet catalog path in a missing directory: ISO9660 catalog file, boot record and catalog stay',
+    'add_eltorito:udf-bootcat-duplicate': 'add_eltorito with a UDF catalog name that exists: ISO9660 catalog file, boot record and catalog stay',
     'rm_directory:joliet-missing': 'rm_directory(iso_path=..., joliet_path=<missing>): the ISO9660 directory is already removed when the Joliet part is refused',
 }
 
@@ -119,7 +140,9 @@ class Refused(Base):
         self.target = S.PC + '.' + method
         args = [S.data_file(c, b'data') if x == 'FILE' else x for x in args]
         kwargs = dict(kwargs)
-        if method == 'add_fp' and len(args) == 2:
+        if self.sid == 'add_fp:negative-length':
+            args[1] = c.int('length', -(1 << 40), -1)         # EVERY negative length
+        elif method == 'add_fp' and len(args) == 2:
             # the refusal must not depend on the announced length: any 32-bit length
             args[1] = c.int('length', 0, (1 << 32) - 1)
         if self.sid in ('add_fp:bad-iso-char', 'add_directory:bad-char'):
